@@ -52,6 +52,7 @@ type Engine struct {
 	specFuns    map[string]SpecFun
 	specDefs    map[string]*SpecDefine
 	loadErrs    []string
+	sealedCache map[string]sealedRes
 }
 
 var defaultPkgs = []string{
@@ -65,7 +66,7 @@ func loadEngine(repo string, patterns []string) (*Engine, error) {
 		allocSumm: map[*ssa.Function]*ModSet{}, modOverride: map[string][]string{}, funcTypeFrame: map[string]*ModSet{},
 		noInline: map[string]bool{}, typeIDs: map[string]int{}, typeByID: map[int]types.Type{}, globals: map[*ssa.Global]int64{},
 		funcs: map[*ssa.Function]int64{}, contracts: map[*ssa.Function]*Contract{}, ifaceCts: map[string]*Contract{},
-		funcTCts: map[string]*Contract{}, ghosts: map[string]SpecFun{}, specFuns: map[string]SpecFun{}, specDefs: map[string]*SpecDefine{}}
+		funcTCts: map[string]*Contract{}, sealedCache: map[string]sealedRes{}, ghosts: map[string]SpecFun{}, specFuns: map[string]SpecFun{}, specDefs: map[string]*SpecDefine{}}
 	cfg := &packages.Config{Mode: packages.LoadSyntax, Dir: repo, BuildFlags: []string{"-tags=verif"},
 		Env: append(os.Environ(), "GOFLAGS=-mod=mod", "GOPROXY=off", "GOSUMDB=off", "GOTOOLCHAIN=local")}
 	pkgs, err := packages.Load(cfg, patterns...)
@@ -412,4 +413,55 @@ func (e *Engine) detResult(fn *ssa.Function) bool {
 
 func (e *Engine) mayTouchGhost(fn *ssa.Function, name string) bool {
 	return e.summaryOf(fn).mods.has(name)
+}
+
+// sealedImpls: type ids of the implementations of a sealed interface (one with an
+// unexported method, declared in a loaded package).
+func (e *Engine) sealedImpls(t types.Type) ([]int, bool) {
+	key := types.TypeString(t, nil)
+	if r, ok := e.sealedCache[key]; ok {
+		return r.ids, r.ok
+	}
+	res := sealedRes{}
+	defer func() { e.sealedCache[key] = res }()
+	n, ok := types.Unalias(t).(*types.Named)
+	if !ok || n.Obj().Pkg() == nil {
+		return nil, false
+	}
+	it, ok := n.Underlying().(*types.Interface)
+	if !ok {
+		return nil, false
+	}
+	if _, loaded := e.spkgs[n.Obj().Pkg().Path()]; !loaded {
+		return nil, false
+	}
+	sealed := false
+	for i := 0; i < it.NumMethods(); i++ {
+		if !it.Method(i).Exported() {
+			sealed = true
+		}
+	}
+	if !sealed {
+		return nil, false
+	}
+	for _, T := range e.concreteTypes {
+		nn, ok := T.(*types.Named)
+		if !ok || nn.Obj().Pkg() != n.Obj().Pkg() {
+			continue
+		}
+		for _, tt := range []types.Type{T, types.NewPointer(T)} {
+			if types.Implements(tt, it) {
+				id := e.typeID(types.TypeString(tt, nil))
+				e.typeByID[id] = tt
+				res.ids = append(res.ids, id)
+			}
+		}
+	}
+	res.ok = true
+	return res.ids, true
+}
+
+type sealedRes struct {
+	ids []int
+	ok  bool
 }
